@@ -31,7 +31,8 @@ THEOREMS = [
     'Px.Reverse.C12_selection', 'Px.Reverse.C12_hits_sound',
     'Px.Reverse.C12_target', 'Px.Reverse.C12_target_static', 'Px.Reverse.C12_default_ports',
     'Px.Reverse.C12_forwarded_request', 'Px.Reverse.C12_forwarded_path',
-    'Px.Reverse.C12_host_rewrite', 'Px.Reverse.C12_headers_preserved', 'Px.Reverse.C12_default_disable',
+    'Px.Reverse.C12_host_rewrite', 'Px.Reverse.C12_headers_preserved', 'Px.Reverse.C12_parsed_names_distinct',
+    'Px.Reverse.C12_default_disable',
     'Px.Reverse.C12_relay', 'Px.Reverse.C12_relay_segments', 'Px.Reverse.C12_relay_stops',
     'Px.Reverse.C12_dynamic_literal', 'Px.Reverse.C12_dynamic_url',
     'Px.Reverse.C12_refused', 'Px.Reverse.C12_close',
@@ -49,12 +50,29 @@ ASSUMPTIONS = [
     'random.choice is a scripted index; plugins keep the base-class before_routing/protocols/regexes; '
     'handle_route returns a Url or a memoryview (the TcpServerConnection variant is not covered)',
     '--enable-static-server off (C13), --enable-events off, client side not TLS',
-    'the header map of the parsed request has pairwise distinct original-case names (established by '
-    'HttpParser.add_header keying on the lower-cased name; explicit hypothesis HdrNamesDistinct of C12_headers_preserved)',
+    'the forwarded bytes are stated in terms of the Url / Parser / Build models (Url.from_bytes, HttpParser.parse, '
+    'build_http_request): their own correctness is C14 / C03 / C15; here they are exercised end to end through the handler',
 ]
 EXHAUSTIVE = {}
 
 NOT_FOUND_SIG = 'no-route-request-not-answered-by-404'
+
+
+def _preload():
+    """Import the implementation once, in the process that later forks the worker pool: importing
+    (and byte-compiling) the whole package lazily inside the first case of every worker can take longer
+    than the per-case guard on a loaded machine."""
+    import harness.sim                              # noqa: F401
+    import proxy.http.handler                       # noqa: F401
+    import proxy.http.server.reverse                # noqa: F401
+    import proxy.http.server.web                    # noqa: F401
+    import proxy.core.connection.server             # noqa: F401
+    import proxy.common.flag                        # noqa: F401
+    import proxy.http.responses                     # noqa: F401
+    import proxy.plugin                             # noqa: F401  (FlagParser.initialize resolves default plugins)
+
+
+_preload()
 
 
 # ----------------------------------------------------------------------------------------------
@@ -149,6 +167,20 @@ def _classify(segs):
 
 def _drive(case):
     """Runs the real classes; returns a dict of observations."""
+    if not os.environ.get('VERIF_C12_TIMING'):
+        return _drive0(case)
+    import time
+    t = time.time()
+    try:
+        return _drive0(case)
+    finally:
+        dt = time.time() - t
+        if dt > 2:
+            with open('/tmp/c12/slow.log', 'a') as f:
+                f.write('%.1f pid=%d %s\n' % (dt, os.getpid(), json.dumps(case)[:300]))
+
+
+def _drive0(case):
     import logging
     logging.disable(logging.CRITICAL)
     from harness.sim import World, elems
@@ -449,16 +481,30 @@ def tiny_parse_request(raw):
 
 
 def oracle(case):
+    sig = _oracle(case)
+    if sig and os.environ.get('VERIF_C12_DEBUG'):
+        o = _drive(case)
+        sig += ' | rerun=%r first=%r' % (_oracle(case), {k: (v if not isinstance(v, (bytes, list)) else len(v))
+                                                       for k, v in _LAST.items()})
+        del o
+    return sig
+
+
+_LAST = {}
+
+
+def _oracle(case):
     if not in_quantifier(case):
         return None
     from proxy.http.responses import NOT_FOUND_RESPONSE_PKT
     m = case['meta']
     o = _drive(case)
+    _LAST.clear()
+    _LAST.update(o)
     if o['skip']:
         return 'valid-web-request-not-served-' + o['skip']
     path_text = bytes.fromhex(m['target']).decode('utf-8')
     lits, cands, anym, yields, _ = _route_candidates(case, path_text)
-    segs_up = [bytes.fromhex(e) for e in case['up'] if e not in ('E', 'R', 'T', 'W')]
     if not anym:
         if o['connects'] or o['upstream_read']:
             return 'no-route-request-caused-outbound-connection'
@@ -533,7 +579,6 @@ def oracle(case):
             want += bytes.fromhex(e)
     if o['client_read'] != want:
         return 'upstream-response-not-relayed-unmodified'
-    del segs_up
     return None
 
 
